@@ -23,6 +23,31 @@ def _fcp(d):
     return get_fcp_from_string(d["schema_text"], Logger({})).unwrap()
 
 
+def _with_decoy(fn):
+    """Fresh-process replay first; if that does not reproduce, replay again after exercising the codec on the
+    same-named decoy schema in the same process (state that survives across schemas)."""
+    def wrapped(d):
+        r = fn(d)
+        if r[0] or not d.get("decoy_text"):
+            return r
+        try:
+            from fcp import serde
+            from .fromfcp import schema_from_fcp
+            from .shapes import zero_value
+            f = _fcp_text(d["decoy_text"])
+            sch = schema_from_fcp(f, top=d["top"])
+            v = zero_value(sch, ("struct", d["top"]))
+            serde.decode(f, d["top"], serde.encode(f, d["top"], v))
+        except Exception:
+            pass
+        r2 = fn(d)
+        if r2[0]:
+            return True, "after using a same-named but different schema first in the same process: " + r2[1]
+        return r
+    wrapped.__name__ = fn.__name__
+    return wrapped
+
+
 def replay_serde_roundtrip(d):
     from fcp import serde
 
@@ -83,6 +108,12 @@ def replay_serde_truncated(d):
 
     fcp = _fcp(d)
     data = bytearray(d["data"])
+    if d.get("_after_full") and d.get("full") is not None:
+        for prior in (bytearray(d["full"]), bytearray([255] * (len(d["full"]) + 4))):
+            try:
+                serde.decode(fcp, d["top"], prior)      # an earlier, longer message in the same process
+            except Exception:
+                pass
     if d.get("work_bound"):
         try:
             import resource
@@ -182,6 +213,24 @@ def replay_verifier(d):
     if ok != spec:
         return True, f"verify -> {'Ok' if ok else 'Err'}, specification -> {'well' if spec else 'ill'}-formed; tree={desc}"
     return False, f"verdict {ok} equals specification"
+
+
+replay_serde_roundtrip = _with_decoy(replay_serde_roundtrip)
+replay_serde_encode = _with_decoy(replay_serde_encode)
+replay_serde_decode = _with_decoy(replay_serde_decode)
+def _after_full(fn):
+    def wrapped(d):
+        r = fn(d)
+        if r[0] or d.get("full") is None:
+            return r
+        r2 = fn(dict(d, _after_full=True))
+        if r2[0]:
+            return True, "after a longer message was decoded first in the same process: " + r2[1]
+        return r
+    return wrapped
+
+
+replay_serde_truncated = _after_full(_with_decoy(replay_serde_truncated))
 
 
 def _fcp_text(text):
@@ -287,6 +336,19 @@ def _replay_parser_refs(d, prime):
 
     names = d["names"]
     if prime:
+        import re as _re
+        dfiles = {}
+        for rel, text in d["files"].items():
+            if rel != "main.fcp":
+                text = _re.sub(r"enum (\w+) \{[^}]*\}", lambda m: "struct %s { zz @0: u8, }" % m.group(1), text)
+            dfiles[rel] = text
+        droot = _materialize(dfiles, names)
+        try:
+            _get(os.path.join(droot, "main.fcp"))      # another project with equally named module files
+        except Exception:
+            pass
+        finally:
+            shutil.rmtree(droot, ignore_errors=True)
         pn = dict(names)
         for k, (vis, _, _) in d["refs"].items():
             if vis:
@@ -422,12 +484,15 @@ def replay_reflection(d):
             asg[k] = (v["__float__"], v["bits"])
         else:
             asg[k] = v
+    from .prime import prime
+    prime(rc.COLLIDING, ("serde", "layout"))
     fcp = _fcp_text(rc.TEMPLATES[d["template"]])
     rc.Patcher(asg=asg).patch(fcp)
     rfcp = get_reflection_schema().unwrap()
     rsch = schema_from_fcp(rfcp, top="Fcp")
     T = ("struct", "Fcp")
     try:
+        fcp.reflection()
         rec = fcp.reflection()
     except Exception as e:
         return True, f"reflection() raised {type(e).__name__}: {e}"
@@ -497,6 +562,8 @@ def replay_gating(d):
             fcp_vstub.CONFIG.update({"checks": [], "records": [], "calls": [], "verdict": lambda ci, cat, k: True})
             gm0 = GeneratorManager(make_general_verifier())
             gm0.generate("vstub", None, None, fcp, out)
+            if d.get("history") == 2:
+                gm0 = None      # the checked call uses a fresh manager/verifier pair
         else:
             gm0 = None
         fcp_vstub.CONFIG.update({"checks": d["checks"], "records": recs, "calls": [],
@@ -1102,3 +1169,17 @@ def replay_c_signal_table(d):
         if a1 > b0:
             return True, f"overlapping signals {rng}"
     return False, "signal table fits"
+
+
+# ---------------------------------------------------------------- history-aware variants (see verif/prime.py)
+from .prime import retry_primed as _rp  # noqa: E402
+
+replay_layout = _rp(replay_layout, ("layout", "serde"))
+replay_verifier = _rp(replay_verifier, ("verify",))
+replay_dbc_tv = _rp(replay_dbc_tv, ("layout", "dbc"))
+replay_c_encode = _rp(replay_c_encode, ("layout", "c"))
+replay_c_decode = _rp(replay_c_decode, ("layout", "c"))
+replay_c_sched = _rp(replay_c_sched, ("layout", "c"))
+replay_cpp_encode = _rp(replay_cpp_encode, ("cpp",))
+replay_cpp_decode = _rp(replay_cpp_decode, ("cpp",))
+replay_cpp_compile = _rp(replay_cpp_compile, ("cpp",))
